@@ -87,6 +87,8 @@ def run(prog, R):
         R.ob("C11.2-flags-set-by-scanner", "number(): empty_int iff the digit scanner after a radix prefix found no digit", not bad and n >= 10, num.at, f"{n} literal-returning paths; {bad[:3]}")
     import scanners
     scanners.check(prog, R, "C11.2-digit-scanners")
+    # the two string scanners behave identically up to their quote character (decision table of one iteration)
+    scanners.string_scanners_agree(prog, R, "C11.2-string-scanners-agree")
     at = R.anchor(prog, "oq3_lexer::Cursor::advance_token")
     if at:
         ps, tr = paths(prog, at.npath, 50000)
@@ -193,6 +195,29 @@ def run(prog, R):
         rec = any(c.endswith("have_syntax_errors") for f in cone for c in list(prog.callgraph().get(f, ())) + list(prog.ext_calls().get(f, ())))
         incl = any("included" in c for f in cone for c in list(prog.callgraph().get(f, ())) + list(prog.ext_calls().get(f, ()))) or any("included" in (prog.body(f).callee_of(t) or "") for f in cone for _, t in prog.body(f).calls())
         R.ob("C11.3-gating", "have_syntax_errors recurses into included files", rec and incl, hs.at, f"calls included(): {incl}; recursive have_syntax_errors: {rec}")
+        # a source without a syntax tree (an included file that could not be read) has no syntax error of its own:
+        # evaluate the body with syntax_ast() = None and no erroneous inclusion; the result must be the constant false
+        def model(se, st, t, cal, args, site):
+            a0 = deep_strip(args[0]) if args else None
+            none = isinstance(a0, tuple) and a0[0] == "adt" and a0[1].endswith("Option::None")
+            if cal.endswith("::syntax_ast"):
+                return ("adt", "std::option::Option::None", ())
+            if cal.endswith("::any"):
+                return ("c", "bool", 0)
+            if none and cal.endswith(("::is_some_and", "::is_some")):
+                return ("c", "bool", 0)
+            if none and cal.endswith(("::is_none_or", "::is_none")):
+                return ("c", "bool", 1)
+            if none and cal.endswith("::map_or"):
+                return args[1]
+            if none and cal.endswith(("::map", "::and_then", "::filter")):
+                return ("adt", "std::option::Option::None", ())
+            if none and cal.endswith("::unwrap_or"):
+                return args[1]
+            return None
+        vals = {show(deep_strip(p.env.get(0))) for p in SymExec(prog, hs, call_model=model).paths() if "__diverged__" not in p.env}
+        R.ob("C11.3-gating", "a source without a syntax tree has no syntax error of its own", vals == {"false"}, hs.at,
+             f"have_syntax_errors() with syntax_ast() == None and no erroneous inclusion evaluates to {sorted(vals)} (an unreadable include must lead to the FileNotFound diagnostic of the analyser, not to the syntax-error gate)")
     else:
         R.ob("ANCHOR", "SourceTrait::have_syntax_errors", False)
     # ---- C11.4 the include pre-pass runs on trees with syntax errors: no tree-accessor unwrap there
